@@ -328,6 +328,7 @@ package actions
 //@   ensures still_unique: err == nil ==> unique_sub_names() && subs_wf()
 //@   ensures topic_resolved: err == nil ==> topic_named(subscriptions.topic_id(a.results.ID), a.params.TopicName) && a.results.TopicID == subscriptions.topic_id(a.results.ID)
 //@   ensures result_entity: err == nil ==> a.results.Sub != nil && a.results.Sub.ID == a.results.ID
+//@   ensures result_mirrors_row: [C17] err == nil ==> entity_mirrors_row(a.results.Sub, a.results.ID)
 //@   ensures config_stored: [C17] err == nil ==> (forall x Id :: x == a.results.ID ==>
 //@             subscriptions.ttl(x) == a.params.TTL && subscriptions.message_ttl(x) == a.params.MessageTTL &&
 //@             !subscriptions.ordered_delivery$null(x) && subscriptions.ordered_delivery(x) == a.params.OrderedDelivery &&
